@@ -219,7 +219,9 @@ def check_case(ctx, case):
         return _mapnum(ctx, case, m1, rng)
     kind = case["variant"]
     m2, old2new = _variant(m1, kind, rng)
-    if m2 is None or Chem.MolToSmiles(m2) != Chem.MolToSmiles(m1) or m2.GetNumAtoms() != m1.GetNumAtoms():
+    if m2 is None or Chem.MolToSmiles(m2) != Chem.MolToSmiles(m1) or m2.GetNumAtoms() != m1.GetNumAtoms() or _n_stereo(m2) != _n_stereo(m1):
+        # (the last test: RDKit sometimes writes a random SMILES with "conflicting single bond directions", re-reads it
+        # without the E/Z labels, and its canonical SMILES does not show the loss for large-ring bonds)
         ctx.count("skipped:rdkit-not-self-consistent")
         return
     opt = case["opt"]
